@@ -28,7 +28,7 @@ def replay(prop, path, seed, tier):
     if getattr(mod, "NEEDS_CLI", False):
         core.build_cli()
     genv = {"CWE_CHECKER_BIN": core.CLI_BIN, "CWE_CHECKER_SRC": os.path.join(core.REPO, "src"),
-            "VERIF_SCRATCH": os.path.join(core.BUILD, "cli_inputs", prop + "_replay")}
+            "VERIF_SCRATCH": os.path.join(core.BUILD, "cli_inputs", prop + "_replay"), "VERIF_USE_FILES": "1"}
     p = core.sh([core.BIN, "replay", prop, path, "--out", out], cwd=core.ROOT, check=False, env=genv)
     if p.returncode != 0:
         raise ToolError("replay failed: " + p.stdout[-2000:])
